@@ -196,6 +196,7 @@ def run(ctx):
             ctx.violation('input', fail, mk_replay(desc, frame, peaks, upsample, fail), signature=sig)
             break
     ctx.extra['oracle_cases'] = nS
+    ctx.run_modes()
     return ctx.finish(
         LEVEL,
         explanation='Theorems: centre in the window for any peak, signed storage exact, |refined-centre| <= r <= 2 (centre of mass of non-negative '
